@@ -34,6 +34,9 @@ mod imp {
     pub fn find_freed(a: usize) -> Option<l::Block> {
         l::find_freed(a)
     }
+    pub fn packed() -> bool {
+        l::is_packed()
+    }
     pub fn scope_enter(tag: u32) {
         l::scope_enter(tag)
     }
@@ -78,6 +81,9 @@ mod imp {
     }
     pub fn find_freed(_a: usize) -> Option<Block> {
         None
+    }
+    pub fn packed() -> bool {
+        false
     }
     pub fn scope_enter(_tag: u32) {}
     pub fn scope_exit() {}
